@@ -32,7 +32,7 @@ try:
             if rc != 0:
                 res[pid] = {'exit': rc, 'violations': nv, 'reports': [x[:300] for x in first]}
 finally:
-    subprocess.run(['git', '-C', '/repo', 'checkout', '--', '.'])
+    subprocess.run(['git', '-C', '/repo', 'checkout', 'HEAD', '--', '.'])
     # evidence files were rewritten by runs on the patched tree: regenerate on the clean tree
     for pid in ['C%02d' % i for i in range(1, 21)]:
         subprocess.run([os.path.join(ROOT, 'check'), pid, '--tier', 'quick'], cwd=ROOT, stdout=subprocess.DEVNULL)
